@@ -117,7 +117,7 @@ def bindDigest (os : Binding.Origins) (d : Db) (r : List (Str × Binding.Rec)) :
   joinWith "," (d.keys.map fun k => hex k ++ "=" ++ showRec os (lookup r k) ++ "|" ++
     (match lookup d.register k with
       | some (some o) => showOrigin os (Binding.root os o)
-      | _ => "~" ++ showOrigin os (some (Binding.readOrigin d k))))
+      | _ => "~" ++ showOrigin os (some (Binding.readOrigin d r k))))
 
 def showBindOut (os : Binding.Origins) : Out → String
   | .series l => "series " ++ (if l.isEmpty then "=" else
